@@ -112,27 +112,30 @@ class Interp:
             return {n: self.zero(ft) for ft, n in self.structs[t[1]]}
         raise RefError(f"zero of {t}")
 
-    def conv(self, v, src, dst):
-        """Implicit conversion of value v of static type src to dst."""
+    def conv(self, v, src, dst, boundary=False):
+        """Implicit conversion of value v of static type src to dst.  boundary=True: at a call or constructor
+        argument, where the compiler inserts a conversion (C03/C04): a non-negative non-integral float truncates
+        (floor and truncation agree there); everywhere else, and for negative non-integral values, R1 applies."""
         if src == dst:
             return v
         if is_scalar(src) and is_scalar(dst):
-            return self.conv_scalar(v, src, dst)
+            return self.conv_scalar(v, src, dst, boundary)
         if (is_vec(src) and is_vec(dst) and src[2] == dst[2]):
-            return [self.conv_scalar(x, src[1], dst[1]) for x in v]
+            return [self.conv_scalar(x, src[1], dst[1], boundary) for x in v]
         if is_mat(src) and is_mat(dst) and src[2:] == dst[2:]:
-            return [[self.conv_scalar(x, src[1], dst[1]) for x in row] for row in v]
+            return [[self.conv_scalar(x, src[1], dst[1], boundary) for x in row] for row in v]
         raise RefError(f"no conversion {src} -> {dst}")
 
-    def conv_scalar(self, v, src, dst):
+    def conv_scalar(self, v, src, dst, boundary=False):
         if src == dst:
             return v
         if dst == "float":
             return float(v)
         if dst == "int":
             if src == "float":
-                if v != int(v) :
-                    raise Unspec("float->int conversion of a non-integral value")
+                if v != int(v):
+                    if not (boundary and v >= 0):
+                        raise Unspec("float->int conversion of a non-integral value")
                 v = int(v)
             self.rng(v)
             return v
@@ -417,7 +420,7 @@ class Interp:
             for (at, av), (pt, _) in zip(args, f["params"]):
                 if is_arr(pt) or is_struct(pt):
                     raise Unspec("aggregate passed to a function (reference semantics fixed by the suite, not by the statements)")
-                vals.append(self.conv(copy.deepcopy(av), at, pt))
+                vals.append(self.conv(copy.deepcopy(av), at, pt, boundary=True))
             self.count("call")
             return f["ret"], self.call_func(f, vals)
         if k == "ctor":
@@ -427,9 +430,9 @@ class Interp:
                 flat = []
                 for at, av in args:
                     if is_scalar(at):
-                        flat.append(self.conv_scalar(av, at, t[1]))
+                        flat.append(self.conv_scalar(av, at, t[1], True))
                     elif is_vec(at):
-                        flat += [self.conv_scalar(x, at[1], t[1]) for x in av]
+                        flat += [self.conv_scalar(x, at[1], t[1], True) for x in av]
                     else:
                         raise Unspec("constructor argument kind")
                 if len(flat) != t[2]:
@@ -440,7 +443,7 @@ class Interp:
                 for at, av in args:
                     if not (is_vec(at) and at[2] == t[3]):
                         raise Unspec("matrix constructor from non-rows")
-                    rows.append([self.conv_scalar(x, at[1], t[1]) for x in av])
+                    rows.append([self.conv_scalar(x, at[1], t[1], True) for x in av])
                 if len(rows) != t[2]:
                     raise Unspec("matrix constructor row count")
                 return t, rows
